@@ -819,7 +819,7 @@ class SqliteGitShaMap(GitShaMap):
         """
         for table in ("blobs", "commits", "trees"):
             for (sha,) in self.db.execute(f"select sha1 from {table}"):  # noqa: S608
-                yield sha.encode("ascii")
+                yield sha
 
 
 class TdbCacheUpdater(CacheUpdater):
